@@ -174,6 +174,57 @@ func ruleShutdown(c *core.Ctx, a *epAnchors) {
 	c.Check(free, rule, "bus/net.endPoint.closeWith/stream-close-unlocked", fn.Pos(), "the stream is closed before handlersMutex is taken",
 		"the stream is closed while holding handlersMutex: dispatch can hold that mutex while blocked writing to a peer that does not read, so Close waits for the mutex and the writer waits for the stream (deadlock, handlers are never closed)")
 
+	// … nor any other lock that some goroutine holds while it writes to (or reads
+	// from) the stream: a peer that stops reading blocks that goroutine inside the
+	// write with the lock held, and only closing the stream releases it
+	{
+		held := map[core.LockClass]token.Pos{}
+		for _, cl := range closeCalls {
+			for class := range lf.MayHeld(cl) {
+				held[class] = cl.Pos()
+			}
+		}
+		for _, f := range srcFuncsOfPkg(c, "bus/net") {
+			for _, call := range core.Calls(f) {
+				if _, plain := call.(*ssa.Call); !plain || !core.IsCallTo(call, a.epCloseWith) {
+					continue
+				}
+				for class := range core.AnalyzeLocks(f).MayHeld(call.(ssa.Instruction)) {
+					held[class] = call.Pos()
+				}
+			}
+		}
+		bad := ""
+		pos := fn.Pos()
+		for _, f := range srcFuncsOfPkg(c, "bus/net") {
+			var flf *core.LockFacts
+			for _, call := range core.Calls(f) {
+				usesStream := false
+				for _, arg := range call.Common().Args {
+					if isFieldOf(arg, a.stream) {
+						usesStream = true
+					}
+				}
+				if cc := call.Common(); cc.IsInvoke() && isFieldOf(cc.Value, a.stream) && (cc.Method.Name() == "Write" || cc.Method.Name() == "Read") {
+					usesStream = true
+				}
+				if !usesStream {
+					continue
+				}
+				if flf == nil {
+					flf = core.AnalyzeLocks(f)
+				}
+				for class := range flf.MayHeld(call.(ssa.Instruction)) {
+					if p, both := held[class]; both {
+						bad = fmt.Sprintf("%s is held both while %s uses the stream (%s) and when the endpoint is closed: a peer that stops reading blocks the writer inside the stream with the lock held, Close then waits for the lock instead of closing the stream, which is the only thing that would release the writer (Close never returns, pending calls never fail, disconnect callbacks never fire)", class, core.FuncKey(f), c.Pos(call.Pos()))
+						pos = p
+					}
+				}
+			}
+		}
+		c.Check(bad == "", rule, "bus/net.endPoint.closeWith/stream-close-no-io-lock", pos, "no lock held across stream I/O is needed to close the stream", bad)
+	}
+
 	// every non-nil slot closed with the error; the walk over the table may live in
 	// a helper of closeWith that is handed the error (closeHandlers(err))
 	errParam := ssa.Value(fn.Params[1])
@@ -394,6 +445,24 @@ func ruleHandlerBeforeSend(c *core.Ctx, a *epAnchors, rule string) {
 			leak = true
 		}
 	}
+	// … and only then: once the message is out the single-shot filter lets the
+	// dispatcher free the slot itself when the reply arrives, so a later
+	// RemoveHandler(id) can hit a slot that was reused in the meantime
+	stale := token.NoPos
+	for _, f := range core.AnonFuncs(cc.fn) {
+		for _, call := range core.Calls(f) {
+			in := call.(ssa.Instruction)
+			if !isRemove(in) {
+				continue
+			}
+			if f != cc.fn || !core.Guarded(cc.fn, in, core.Ne(isErr, core.IsNilConst)) {
+				stale = call.Pos()
+			}
+		}
+	}
+	c.Check(!stale.IsValid(), rule, "bus.client.Call/remove-only-on-send-failure", firstPos(stale, cc.send.Pos()),
+		"the reply handler is removed by Call only where Send failed (afterwards the dispatcher removes it with the reply)",
+		"Call removes its reply handler by id on a path where the message was sent (cancellation, time-out, clean-up): the reply may already have been dispatched, which frees the slot, and a handler registered since (a disconnect callback, another call's reply handler) has reused the id — it is closed as if the connection was lost and no longer fires on the real loss")
 	// restrict: the select must not be reachable on the error side either
 	c.Check(!leak, rule, "bus.client.Call/remove-on-send-failure", cc.send.Pos(),
 		"a failed Send removes the handler with the id MakeHandler returned", "when Send fails the reply handler is left registered (handler slot leak; its closer later fires for a call that already returned)")
